@@ -52,7 +52,10 @@ Request(o, fail) ==
                  prog' = p1 /\ held' = [held EXCEPT ![o] = "work"] /\ UNCHANGED <<fin, cnt>>
   /\ act' = [name |-> "Request", o |-> o, fail |-> fail, mode |-> Mode(o),
              ran |-> (Mode(o) = "run")]
-  /\ UNCHANGED forced
+  \* forcing asks for ONE recomputation: the object is un-forced when its run has FINISHED the result; while the
+  \* recomputation is still in progress (unfinished steps, failures) it stays forced and goes on where it stopped
+  /\ forced' = IF Mode(o) = "run" /\ fail = "no" /\ (IF prog < N THEN prog + 1 ELSE prog) = N
+                THEN [forced EXCEPT ![o] = FALSE] ELSE forced
 
 Force(o, del) ==
   /\ Tick
